@@ -224,12 +224,19 @@ def known_sigs(pid):
 def exec_case(mod, case, ctx):
     """Returns None, or a Violation. Anything else escaping run_case is a harness error, except that
     property modules convert unexpected exceptions of the code under test into Violations themselves."""
+    limit = getattr(mod, "CASE_FUEL", 3000000)
     try:
-        mod.run_case(case, ctx)
+        if limit:
+            # backstop: a whole case may execute at most `limit` source lines of the code under test
+            # (>= 100x the most expensive legitimate case); modules install tighter per-operation sessions themselves
+            with FuelSession(limit):
+                mod.run_case(case, ctx)
+        else:
+            mod.run_case(case, ctx)
     except Violation as v:
         return v
     except OutOfFuel:
-        return Violation("%s/non-terminating" % mod.ID, "an operation ran out of fuel outside a fuel guard")
+        return Violation("%s/non-terminating" % mod.ID, "the case did not terminate within its fuel (line-count budget, no clock)")
     return None
 
 
